@@ -213,7 +213,7 @@ def main(argv):
     ]
     c.grep_gate()
     quick = c.tier == "quick"
-    n_wrap = 800 if quick else 12000
+    n_wrap = 600 if quick else 12000
     n_daisy = 60 if quick else 500
     n_live = 10 if quick else 60
     wrapper_cases = gen_wrapper_cases(c.rng, n_wrap)
@@ -235,7 +235,8 @@ def main(argv):
     else:
         proved = c.prove("C20")
     broken = getattr(c, "broken", None)
-    model_ok = c.coq_make(["Model/P2PRelay.vo"])[0]
+    # with a failed translation coq/Gen is stale: the model is then not evaluated at all (monitors still are)
+    model_ok = tok and c.coq_make(["Model/P2PRelay.vo"])[0]
 
     # 3. run the real code
     binary, blog = c.go_build("c20")
